@@ -155,6 +155,15 @@ var bbCases int
 func runBlackBox(t ev.Failer, c *ev.Collector, srv *t38.Srv, bc bbCase) {
 	conn := srv.MustDial()
 	defer conn.Close()
+	if bc.Huge > 0 {
+		// do not let the megabytes stay: every later AOFSHRINK case would rewrite them
+		defer func() {
+			cl := srv.MustDial()
+			cl.MustDo("DROP", "kloop")
+			cl.MustDo("DROP", "khuge")
+			cl.Close()
+		}()
+	}
 	bigOnce.Do(func() {
 		conn.MustDo("SET", "big", "blob", "STRING", strings.Repeat("B", 70000))
 		conn.MustDo("SET", "big", "blob2", "STRING", strings.Repeat("C", 20000))
